@@ -100,3 +100,37 @@ Example C11_nonvacuous :
   /\ default_safe 2 (KList EInt) (VList [VInt 1; VInt 2; VInt 3]) = true
   /\ fix_conflict_merge_gen ["top"; "t.m0"; "t.m1"] = Ok ["top"; "t.m0"; "t.m1"].
 Proof. vm_compute. repeat split; reflexivity. Qed.
+Print Assumptions C11_nonvacuous.
+
+(* The tie to the code for duplicate_if_needed is a THEOREM, not a sample: `duplicate_src` is the ast of
+   FieldWrapper.duplicate_if_needed dumped by harness/translate/DupSrc.py on every run (a syntax-to-syntax translation into
+   the MiniPy fragment of Model/MiniPy.v).  Run by the MiniPy interpreter with any n >= 2 destinations, any field kind and
+   any python list of parsed values (scalars, lists, tuples, nested at any depth) it returns a sequence whose items are
+   exactly the model's answer `duplicate_gen` - or raises InconsistentArgumentError exactly when the model says so.
+   Lists and tuples are represented structurally (enc); the method never looks inside any other value, so the theorem holds
+   for EVERY representation `atom` of the other values as non-sequences. *)
+From SPV Require Import Model.MiniPy Gen.FactsDupSrc Proofs.MiniPyDup.
+Theorem C11_source_is_model : forall (atom : Merge.val -> MiniPy.val),
+  (forall v, is_seq (atom v) = false) ->
+  forall ds k util_is_list name pv,
+  Nat.ltb 1 (List.length ds) = true ->
+  items_res (MiniPy.run (MiniPyDup.env_of ds true (is_tuple_kind k) (is_list_kind k) util_is_list name (VL (map (enc atom) pv)))
+                        duplicate_src)
+  = match duplicate_gen (List.length ds) k pv with
+    | Ok l => Ok (map (enc atom) l)
+    | Err Inconsistent => Err (Raise "InconsistentArgumentError")
+    | Err e => Err e
+    end.
+Proof. exact MiniPyDup.src_is_model. Qed.
+Print Assumptions C11_source_is_model.
+
+(* the two hypotheses above are exactly the method's assertions *)
+Theorem C11_source_asserts_reused : forall ds is_tup is_lst util_is_list name parsed,
+  MiniPy.run (MiniPyDup.env_of ds false is_tup is_lst util_is_list name parsed) duplicate_src = Err (Raise "AssertionError").
+Proof. exact src_asserts_reused. Qed.
+Print Assumptions C11_source_asserts_reused.
+Theorem C11_source_asserts_several : forall ds is_tup is_lst util_is_list name parsed,
+  Nat.ltb 1 (List.length ds) = false ->
+  MiniPy.run (MiniPyDup.env_of ds true is_tup is_lst util_is_list name parsed) duplicate_src = Err (Raise "AssertionError").
+Proof. exact src_asserts_several. Qed.
+Print Assumptions C11_source_asserts_several.
